@@ -16,13 +16,16 @@ PID = "C12"
 WHICH = ["dict", "list"]
 PARTS = [(f, w) for f in FAMILIES for w in WHICH]
 
+SHARE_L, SHARE_D = "<shared-list>", "<shared-dict>"
+
 SHAPES = [
+    ("{a:S,b:S} one list object twice", {"a": SHARE_L, "b": SHARE_L}), ("[S,S] one dict object twice", [SHARE_D, SHARE_D]), ("[[S,S],S]", [[SHARE_L, SHARE_L], SHARE_L]),
     ("leaf", SLOT), ("{}", {}), ("[]", []), ("{p}", {"p": SLOT}), ("{'':x}", {"": SLOT}), ("[x]", [SLOT]), ("[x,y]", [SLOT, SLOT]),
     ("{p,q}", {"p": SLOT, "q": SLOT}), ("{p:{}}", {"p": {}}), ("{p:[]}", {"p": []}), ("[[]]", [[]]), ("[{}]", [{}]),
     ("{p:[x]}", {"p": [SLOT]}), ("[{p}]", [{"p": SLOT}]), ("{p:{'':x}}", {"p": {"": SLOT}}), ("[[x],{q:y}]", [[SLOT], {"q": SLOT}]),
     ("{p:{p:{p}}}", {"p": {"p": {"p": SLOT}}}), ("[[[x]]]", [[[SLOT]]]), ("{p:[{q:x}]}", {"p": [{"q": SLOT}]}), ("[{p:[x,y]}]", [{"p": [SLOT, SLOT]}]),
 ]
-SMALL_SHAPES = [SHAPES[0], SHAPES[3], SHAPES[4], SHAPES[5], SHAPES[12], SHAPES[13]]
+SMALL_SHAPES = [SHAPES[3], SHAPES[6], SHAPES[7], SHAPES[8], SHAPES[15], SHAPES[16], SHAPES[0], SHAPES[1]]
 
 TYPED = [
     ("sym-int", None), ("sym-str", None), ("True", True), ("False", False), ("None", None), ("0", 0), ("1", 1), ("1.0", 1.0), ("0.0", 0.0),
@@ -49,13 +52,21 @@ class LeafSrc:
         return v
 
 
-def fill(t, src):
+def fill(t, src, shared=None):
+    """SHARE_L / SHARE_D stand for ONE list / dict object that appears at every marked
+    position of the argument (ordinary finite JSON: `[[0] * 3] * 3`, a defaults dict used
+    under two keys)."""
+    shared = {} if shared is None else shared
     if isinstance(t, str) and t == SLOT:
         return src.next()
+    if isinstance(t, str) and t in (SHARE_L, SHARE_D):
+        if t not in shared:
+            shared[t] = [src.next()] if t == SHARE_L else {"k": src.next()}
+        return shared[t]
     if isinstance(t, dict):
-        return {k: fill(v, src) for k, v in t.items()}
+        return {k: fill(v, src, shared) for k, v in t.items()}
     if isinstance(t, list):
-        return [fill(v, src) for v in t]
+        return [fill(v, src, shared) for v in t]
     return t
 
 
